@@ -37,6 +37,17 @@ func (checker *TimestampChecker) IsUpToDate(t *ast.Task) (bool, error) {
 		return false, nil
 	}
 
+	// A generates entry that matches no file means that the task's output is
+	// missing: it is not up to date, whatever the modification times say
+	for _, g := range t.Generates {
+		if g.Negate {
+			continue
+		}
+		if matches, err := Globs(t.Dir, []*ast.Glob{g}); err != nil || len(matches) == 0 {
+			return false, nil
+		}
+	}
+
 	timestampFile := checker.timestampFilePath(t)
 
 	// If the file exists, add the file path to the generates.
